@@ -215,10 +215,42 @@ func (u *Unit) external(st *State, fr *Frame, in *ssa.Call, fn *ssa.Function, ar
 			}
 			return TupleV{E: []Val{b.Len, u.freshVal(st, rt.(*types.Tuple).At(1).Type(), "randerr", false)}}, true
 		}
-	case "strconv", "strings", "net", "unicode", "encoding/hex", "sort", "encoding/base32", "encoding/base64", "crypto/sha256":
+	case "strings":
+		if len(args) == 2 {
+			a, aok := args[0].(StrV)
+			b, bok := args[1].(StrV)
+			if aok && bok && a.Fmt != "" && b.IsLit && fn.Name() == "Contains" && !strings.ContainsAny(b.Lit, "0123456789-") {
+				// text = literal segments separated by decimal numbers
+				hit := false
+				for _, seg := range splitNumericVerbs(a.Fmt) {
+					if strings.Contains(seg, b.Lit) {
+						hit = true
+					}
+				}
+				return BoolLit(hit), true
+			}
+			if aok && bok && a.IsLit && b.IsLit {
+				switch fn.Name() {
+				case "Contains":
+					return BoolLit(strings.Contains(a.Lit, b.Lit)), true
+				case "HasPrefix":
+					return BoolLit(strings.HasPrefix(a.Lit, b.Lit)), true
+				case "HasSuffix":
+					return BoolLit(strings.HasSuffix(a.Lit, b.Lit)), true
+				}
+			}
+		}
+		return u.pureExternal(st, name, args, rt), true
+	case "strconv", "net", "unicode", "encoding/hex", "sort", "encoding/base32", "encoding/base64", "crypto/sha256":
 		// deterministic, no effect on caller-visible memory; results uninterpreted
 		switch name {
-		case "sort.SliceStable", "sort.Slice", "(*crypto/sha256.digest).Write":
+		case "sort.SliceStable", "sort.Slice", "sort.Sort", "sort.Stable", "sort.Strings", "sort.Ints":
+			// the elements are permuted: their order is unknown afterwards
+			// (A-SORT: nothing else is written; the comparison function is pure)
+			u.havocReachable(st, args[:1])
+			u.Assumed["A-SORT: sort.* permutes the elements of its argument and writes nothing else"]++
+			return nil, true
+		case "(*crypto/sha256.digest).Write":
 			return nil, false
 		}
 		return u.pureExternal(st, name, args, rt), true
@@ -383,11 +415,26 @@ func (u *Unit) invokeModel(st *State, fr *Frame, in *ssa.Call, recv IfaceV, m *t
 	switch m.Name() {
 	case "Error", "String":
 		if m.Type().(*types.Signature).Params().Len() == 0 {
+			if recv.ErrLit != "" && !strings.Contains(recv.ErrLit, "%") {
+				return u.strLit(recv.ErrLit), true
+			}
+			if recv.ErrLit != "" && numericVerbsOnly(recv.ErrLit) {
+				l := u.newInt("errstr_len")
+				u.assume(And(Le(IntLit(0), l), Le(l, BigLit(MaxLen))))
+				return StrV{Arr: u.newArr("errstr"), Len: l, Fmt: recv.ErrLit}, true
+			}
+			mkey := ""
+			if recv.Opq != nil {
+				mkey = "errstr:" + recv.Opq.S
+				if v, ok := st.memo[mkey]; ok {
+					return v, true
+				}
+			}
 			l := u.newInt("errstr_len")
 			u.assume(And(Le(IntLit(0), l), Le(l, BigLit(MaxLen))))
 			s := StrV{Arr: u.newArr("errstr"), Len: l}
-			if recv.ErrLit != "" && !strings.Contains(recv.ErrLit, "%") {
-				return u.strLit(recv.ErrLit), true
+			if mkey != "" {
+				st.memo[mkey] = s
 			}
 			return s, true
 		}
@@ -417,3 +464,18 @@ func (u *Unit) ifaceBase(st *State, key string) *Term {
 	}
 	return u.alloc0
 }
+
+// numericVerbsOnly: every verb of the format is %d.
+func numericVerbsOnly(f string) bool {
+	for i := 0; i < len(f); i++ {
+		if f[i] == '%' {
+			if i+1 >= len(f) || f[i+1] != 'd' {
+				return false
+			}
+			i++
+		}
+	}
+	return true
+}
+
+func splitNumericVerbs(f string) []string { return strings.Split(f, "%d") }
